@@ -157,6 +157,7 @@ type SchedOpts struct {
 	Delay      bool // deviation bounding (else preemption bounding)
 	Budgets    []int
 	MaxEnv     int
+	EnvKinds   map[string]bool // environment choice kinds that are branched on (nil: all)
 	MaxSteps   int
 	NoCache    bool
 	Shards     int // total shards for this scenario (unit runs shard ShardI)
@@ -246,7 +247,7 @@ func ExploreSched(c *Ctx, sc vsched.Scenario, o SchedOpts) {
 				continue
 			}
 		}
-		x := &vsched.Explorer{Delay: o.Delay, UseCache: !o.NoCache && !vrace.Enabled, MaxDev: b, MaxEnv: o.MaxEnv, MaxSteps: o.MaxSteps,
+		x := &vsched.Explorer{Delay: o.Delay, UseCache: !o.NoCache && !vrace.Enabled, MaxDev: b, MaxEnv: o.MaxEnv, EnvKinds: o.EnvKinds, MaxSteps: o.MaxSteps,
 			Scenario: sc, Deadline: c.Deadline, ShardDepth: o.ShardDepth}
 		if bi == len(o.Budgets)-1 && o.Shards > 1 {
 			x.ShardN, x.ShardI = o.Shards, o.ShardI
@@ -394,3 +395,9 @@ func jsonUnmarshal(b json.RawMessage, v any) {
 		_ = json.Unmarshal(b, v)
 	}
 }
+
+// dbEnvKinds: environment answers that DB-level explorations branch on: which ready select case fires (Go picks
+// at random: e.g. the flusher's loop with a flush and the close request both pending), the rendezvous partner
+// of an unbuffered channel. Map iteration order (the engine sorts or batches what it collects from maps), buffer-pool
+// answers and skiplist tower heights keep their defaults there (the last two are enumerated by C11 and C17).
+var dbEnvKinds = map[string]bool{"select.case": true, "chan.partner": true}
